@@ -799,8 +799,29 @@ func nodeHistory(rng *rand.Rand, out *Out) {
 	}
 	busyUntil := length - 40
 	probes := rng.Intn(3) != 0
+	// reorganisations across an epoch boundary: around some boundaries nothing is sent for a few slots; once the chain
+	// is 1-3 slots into the new epoch (the statistics of the finished epoch may already have been computed and cached
+	// on this branch, by the node itself or by a probe) the last momentums - all empty, at least one of them in the
+	// finished epoch - are rolled back and replaced by a branch on which a producer misses its slot: the statistics
+	// and the rewards of that epoch must be those of the adopted branch (the follower only ever sees that one)
+	reorgAt := map[int64]bool{}
+	reorgDone := map[int64]bool{}
+	nearBoundary := func() (int64, int64) { // (index of the nearest boundary, slots since it; negative = before it)
+		sl := (h.nowTs() - h.genesis) / 10
+		b := (sl + perEpoch/2) / perEpoch
+		return b, sl - b*perEpoch
+	}
 	for i := int64(0); i < length; i++ {
-		if i < busyUntil {
+		bnd, off := nearBoundary()
+		if _, ok := reorgAt[bnd]; !ok {
+			reorgAt[bnd] = bnd > 0 && rng.Intn(2) == 0
+		}
+		quiet := reorgAt[bnd] && !reorgDone[bnd] && off >= -7 && off <= 4
+		if quiet && off >= 1 {
+			reorgDone[bnd] = true
+			h.reorgAcrossBoundary(bnd*perEpoch*10 + h.genesis)
+		}
+		if i < busyUntil && !quiet {
 			for k := 0; k < 2; k++ {
 				if rng.Intn(5) == 0 {
 					h.act()
@@ -844,6 +865,43 @@ func probeConsensus(rng *rand.Rand, cs consensus.Consensus, now time.Time, out *
 		}
 	}
 	out.Count("node:read-only-consensus-probe")
+}
+
+// rolls back the last momentums if all of them are empty and the oldest one lies before the epoch boundary, then
+// lets a producer miss its slot on the new branch
+func (h *nodeHist) reorgAcrossBoundary(boundaryTs int64) {
+	st := h.nd.Ch.GetFrontierMomentumStore()
+	top := h.height()
+	if len(h.nd.Ch.GetAllUncommittedAccountBlocks()) != 0 {
+		h.out.Count("node:reorg-skipped:pool-not-empty")
+		return
+	}
+	k := uint64(0)
+	crossed := false
+	for k < 8 && top-k > 2 {
+		m, err := st.GetMomentumByHeight(top - k)
+		if err != nil || m == nil || len(m.Content) != 0 {
+			break
+		}
+		k++
+		if m.Timestamp.Unix() < boundaryTs {
+			crossed = true
+			if h.rng.Intn(2) == 0 {
+				break
+			}
+		}
+	}
+	if !crossed || k == 0 {
+		h.out.Count("node:reorg-skipped:momentums-not-empty")
+		return
+	}
+	if err := h.nd.RollbackTo(top - k); err != nil {
+		h.out.Oracle(false, "harness-rollback-failed", M{"err": err.Error()})
+		return
+	}
+	mock.VerifInsertMomentumSkipping(h.nd.Z, 1+h.rng.Intn(2))
+	h.observe()
+	h.out.Count(fmt.Sprintf("node:reorg-across-epoch-boundary:depth=%d", k))
 }
 
 // end-of-history oracles
